@@ -68,6 +68,18 @@ class RevolveCheckpointSchedule(CheckpointSchedule):
             raise RuntimeError("Invalid forward steps number.")
 
         snapshots = set()
+        # A read is the last use of a checkpoint if the same storage location
+        # is not read again before it is next written.
+        last_read = set()
+        next_use = {}
+        for j in range(len(self._schedule) - 1, -1, -1):
+            j_action, (j_n0, _, j_storage) = _convert_action(self._schedule[j])
+            if j_action in ["Read", "Read_memory", "Read_disk"]:
+                if next_use.get((j_storage, j_n0), "Write") == "Write":
+                    last_read.add(j)
+                next_use[(j_storage, j_n0)] = "Read"
+            elif j_action in ["Write", "Write_memory", "Write_disk"]:
+                next_use[(j_storage, j_n0)] = "Write"
         w_storage = None
         write_ics = False
         adj_deps = False
@@ -85,7 +97,7 @@ class RevolveCheckpointSchedule(CheckpointSchedule):
                         raise InvalidActionIndex
                     write_ics = True
                     adj_deps = False
-                    snapshots.add(w_n0)
+                    snapshots.add((w_storage, w_n0))
                 elif (w_cp_action == "Write_Forward"
                       or w_cp_action == "Write_Forward_memory"):
                     if w_n0 != n_1:
@@ -112,8 +124,8 @@ class RevolveCheckpointSchedule(CheckpointSchedule):
                   or cp_action == "Read_memory"
                   or cp_action == "Read_disk"):
                 self._n = n_0
-                if n_0 == self._max_n - self._r - 1:
-                    snapshots.remove(n_0)
+                if i in last_read:
+                    snapshots.remove((storage, n_0))
                     yield Move(n_0, storage, StorageType.WORK)
                 else:
                     yield Copy(n_0, storage, StorageType.WORK)
